@@ -407,8 +407,23 @@ def r_sortshape(f):
                 # the cursor returned by rows_mut flows unmodified into IntoIterator::into_iter and is only advanced by next()
                 dest = rm[0][1]["dest"]["local"]
                 adv = [fn["name"] for bi, t, fn in b.calls() if fn and fn.get("trait", "").endswith("Iterator") and "RowsMut" in (fn.get("self_ty") or "") ]
-                okk = set(adv) <= {"next", "into_iter"} and "next" in adv and bool(swaps)
+                # one `next` site (the loop head): every row is visited by the same loop body, none is consumed elsewhere
+                okk = set(adv) <= {"next", "into_iter"} and adv.count("next") == 1 and bool(swaps)
                 why = "rows_mut() cursor advanced by %s, swaps: %d" % (sorted(set(adv)), len(swaps))
+                if not adv and not swaps:
+                    # the loop lives in a crate helper that receives the cursor whole
+                    for bi, t, fn in b.calls():
+                        hb = f.crate_fn_for_call(fn) if fn else None
+                        if hb is None or hb.id == b.id:
+                            continue
+                        pos = [i for i, a in enumerate(t["args"]) if a["k"] in ("copy", "move") and strip(d.expr(a))[0] == "call" and strip(d.expr(a))[2] == "rows_mut"]
+                        if len(pos) != 1:
+                            continue
+                        pty = hb.locals[pos[0] + 1]
+                        adv2 = [fn2["name"] for _, t2, fn2 in hb.calls() if fn2 and (fn2.get("trait") or "").endswith("Iterator") and (fn2.get("self_ty") == pty or "RowsMut" in (fn2.get("self_ty") or ""))]
+                        swaps2 = [1 for _, t2, fn2 in hb.calls() if fn2 and fn2["path"] in ("core::ptr::swap", "core::slice::<impl [T]>::swap")]
+                        okk = set(adv2) <= {"next", "into_iter"} and adv2.count("next") == 1 and bool(swaps2)
+                        why = "rows_mut() cursor handed to %s, advanced there by %s, swaps: %d" % (hb.ident, sorted(set(adv2)), len(swaps2))
             R.inst(b.ident, "s4 swap trace applied to every row: " + why, okk)
             if not okk:
                 R.fail(b.ident, "s4:rows", "%s does not apply the column swap trace inside a plain iteration over all of rows_mut() (%s): columns would not move whole" % (b.ident, why), b.where())
